@@ -153,6 +153,14 @@ theorem network_votes_obey_the_rules {K : Nat} {V : List VoteSet.Validator} {me0
     Net.HonestRules V.length (Net.wOf V) (fun j => ¬ Net.Honest K me0 j) (Net.Hs K me0 g0 as height) :=
   Net.honest_rules setting
 
+/-- no equivocation by honest nodes over a whole run of the network: at most one prevote and one
+    precommit per height and round (crash-free runs; across restarts it is the signer's theorem, C03) -/
+theorem network_no_equivocation {K : Nat} {V : List VoteSet.Validator} {me0 : Nat → Option Nat} {g0 : Net.G}
+    {as : List Net.Act} (setting : Net.Setting K V me0 g0 as) (height : Int) (type j : Nat) (r : Int)
+    (x y : Option Bytes) (s s' : Nat) (hon : Net.Honest K me0 j)
+    (h1 : Net.voteAt K me0 g0 as height type j r x s) (h2 : Net.voteAt K me0 g0 as height type j r y s') : x = y :=
+  Net.one_vote_per_round setting type j r x y s s' hon h1 h2
+
 /-- freshly started nodes are a legitimate initial state -/
 theorem started_nodes_satisfy_the_setting (V : List VoteSet.Validator) (pos : ∀ val ∈ V, 0 ≤ val.power)
     (cfg : Node.Cfg) (height : Int) (vals : ValSet.ValSet) (hV : Node.vsVals vals = V) (i : Nat) (skip : Bool)
